@@ -62,14 +62,15 @@ Fixpoint refresh_ro (fuel : nat) (s : sys) (r : nat) : sys :=
   end.
 
 (* the lookup object's changed(): drop caches; the verifying flavour snapshots ro[1:] and the
-   generations.  [from_verify] = called with None (failed verification): the registry's ro is
-   refreshed first (VerifyingAdapterLookup.changed). *)
+   generations; VerifyingAdapterLookup.changed always refreshes the registry's ro first, so the
+   snapshot is taken over a current order.  [from_verify] = called with None (failed
+   verification); kept for documentation, both callers behave alike. *)
 Definition lookup_changed (from_verify : bool) (s : sys) (r : nat) : sys :=
   let x := get s r in
   match rs_flavour x with
   | Push => set s r (mkRS (rs_reg x) empty_caches (rs_bases x) (rs_ro x) (rs_subs x) (rs_vro x) (rs_vgen x) Push)
   | Verifying =>
-      let s0 := if from_verify then refresh_ro 0 s r else s in
+      let s0 := refresh_ro 0 s r in
       let x0 := get s0 r in
       let vro := tl (rs_ro x0) in
       set s0 r (mkRS (rs_reg x0) empty_caches (rs_bases x0) (rs_ro x0) (rs_subs x0) vro (gens s0 vro) Verifying)
